@@ -239,3 +239,95 @@ Definition areq_ok (p : aparam) (rd : list str) (has_key : bool) : Prop :=
   (items_of p rd <> [] ->
      exists vs, Forall2 (fun raw v => convert (ap_elem p) raw = Some v /\ valid_value (ap_elem p) v = true) (items_of p rd) vs /\
                 count_ok p vs = true /\ (ap_unique p = true -> distinct_values vs = true)).
+
+(* ================= C03: nested array parameters (sliceparambinder applied to itself) ================= *)
+(* the items of a level: leaves, or arrays again with their own separator, item counts and uniqueness *)
+Inductive nitems :=
+| NLeaf (t : ptype)
+| NArr (sep : N) (minitems maxitems : option Z) (unique : bool) (inner : nitems).
+
+Inductive nvalue := NV (v : value) | NL (l : list nvalue).
+
+Definition len_ok (mn mx : option Z) (n : nat) : bool :=
+  match mn with Some a => Z.leb a (Z.of_nat n) | None => true end &&
+  match mx with Some b => Z.leb (Z.of_nat n) b | None => true end.
+
+Fixpoint distinct_texts (l : list str) : bool :=
+  match l with [] => true | x :: r => negb (existsb (str_eqb x) r) && distinct_texts r end.
+
+(* one element of a level, given its text.  None: the request is refused; Some None: the element is an array that
+   splits to nothing and is left out of the enclosing list; Some (Some v): its value.
+   As generated: an inner array is split, its item counts and its uniqueness are checked ON THE PARTS AS WRITTEN,
+   and only then are the parts converted, in order *)
+Fixpoint conv_elem (it : nitems) (raw : str) {struct it} : option (option nvalue) :=
+  match it with
+  | NLeaf t =>
+      match convert t raw with
+      | Some v => if valid_value t v then Some (Some (NV v)) else None
+      | None => None
+      end
+  | NArr sep mn mx u inner =>
+      let parts := split_by sep raw in
+      if negb (len_ok mn mx (length parts)) then None
+      else if u && negb (distinct_texts parts) then None
+      else match parts with
+           | [] => Some None
+           | _ =>
+               option_map (fun vs => Some (NL vs))
+                 ((fix go (l : list str) : option (list nvalue) :=
+                     match l with
+                     | [] => Some []
+                     | x :: r =>
+                         match conv_elem inner x with
+                         | None => None
+                         | Some None => go r
+                         | Some (Some v) => option_map (cons v) (go r)
+                         end
+                     end) parts)
+           end
+  end.
+
+Fixpoint nvalue_eqb (a b : nvalue) {struct a} : bool :=
+  match a, b with
+  | NV x, NV y => value_eq x y
+  | NL l, NL m =>
+      (fix go (l m : list nvalue) : bool :=
+         match l, m with
+         | [], [] => true
+         | x :: r, y :: r' => nvalue_eqb x y && go r r'
+         | _, _ => false
+         end) l m
+  | _, _ => false
+  end.
+Fixpoint distinct_nvalues (l : list nvalue) : bool :=
+  match l with [] => true | x :: r => negb (existsb (nvalue_eqb x) r) && distinct_nvalues r end.
+
+(* the parameter itself: its elements are described by [np_items]; the outer item counts and uniqueness are checked on
+   the converted list (elements that split to nothing are not in it) *)
+Record nparam := { np_required : bool; np_allow_empty : bool; np_sep : N; np_items : nitems;
+                   np_minitems : option Z; np_maxitems : option Z; np_unique : bool }.
+Inductive noutcome := NReject | NAbsent | NBound (vs : list nvalue).
+
+Fixpoint conv_elems (it : nitems) (l : list str) : option (list nvalue) :=
+  match l with
+  | [] => Some []
+  | x :: r =>
+      match conv_elem it x with
+      | None => None
+      | Some None => conv_elems it r
+      | Some (Some v) => option_map (cons v) (conv_elems it r)
+      end
+  end.
+
+Definition bind_nested (p : nparam) (rd : list str) (has_key : bool) : noutcome :=
+  if np_required p && negb has_key then NReject
+  else match split_by (np_sep p) (last_raw rd) with
+       | [] => if np_required p && negb (np_allow_empty p) then NReject else NAbsent
+       | parts =>
+           match conv_elems (np_items p) parts with
+           | None => NReject
+           | Some vs =>
+               if len_ok (np_minitems p) (np_maxitems p) (length vs) && (if np_unique p then distinct_nvalues vs else true)
+               then NBound vs else NReject
+           end
+       end.
